@@ -22,8 +22,11 @@ def main(argv):
     offset, prefix, rnd = 3, "/tmp/mut2-", "second"
     if argv and argv[0] == "--round3":
         offset, prefix, rnd, argv = 5, "/tmp/mut3-", "third", argv[1:]
+    srcdir = None
+    if argv and argv[0] == "--src":        # --src DIR OFFSET PID : one directory of m1/m2 files for one property, numbered from OFFSET+1
+        srcdir, offset, rnd, argv = argv[1], int(argv[2]), "focused", argv[3:]
     for pid in argv:
-        src = f"{prefix}{pid}-out"
+        src = srcdir or f"{prefix}{pid}-out"
         for i in (1, 2, 3):
             if not os.path.isfile(f"{src}/m{i}.diff"):
                 continue
